@@ -12,7 +12,7 @@ USUAL_VALENCES = {'C': [4], 'N': [3, 5], 'O': [2], 'S': [2, 4, 6], 'P': [3, 5],
                   'F': [1], 'Cl': [1], 'Br': [1], 'H': [1]}
 # iso-electronic shift for charged centres
 CHARGED = {('N', 1): [4], ('O', -1): [1], ('N', -1): [2], ('O', 1): [3], ('S', -1): [1],
-           ('C', -1): [3], ('S', 1): [3, 5], ('P', 1): [4]}
+           ('C', -1): [3], ('S', 1): [3, 5], ('P', 1): [4], ('Cl', -1): [0], ('F', -1): [0], ('Br', -1): [0]}
 MASS = {'H': 1.008, 'C': 12.011, 'N': 14.007, 'O': 15.999, 'S': 32.06, 'P': 30.974, 'F': 18.998,
         'Cl': 35.45, 'Br': 79.904}
 
@@ -141,10 +141,14 @@ def lowered(m):
     The ring is not aromatic - its Kekule structure is unique - so the reader has to come back to m."""
     k = copy.deepcopy(m)
     for ring in m.quin_rings:
-        for i in range(6):
-            k.bonds[frozenset((ring[i], ring[(i + 1) % 6]))] = 1.5
+        n_ = len(ring)
+        for i in range(n_):
+            k.bonds[frozenset((ring[i], ring[(i + 1) % n_]))] = 1.5
         for a in ring:
             k.atoms[a]['aromatic'] = True
+            if m.atoms[a]['element'] == 'N' and m.hcount(a) == 1:
+                k.hfix[a] = 1                       # pyrrole-type nitrogen: written [nH]
+                k.atoms[a]['force_bracket'] = True
     return k
 
 
@@ -178,6 +182,12 @@ def gen_mol(R, max_heavy=10, min_heavy=1, p_ring=0.5, p_arom=0.35, p_multi=0.4, 
         for a in range(6):
             m.add_bond(ids[a], ids[(a + 1) % 6], 1.5)
         m.arom_rings.append(ids)
+        if 'N' in els and p_charge and R.random() < 0.3:
+            # pyridinium: [nH+] or N-substituted [n+]
+            nn = ids[els.index('N')]
+            m.atoms[nn]['charge'] = 1
+            if R.random() < 0.6:
+                m.add_bond(nn, m.add_atom('C'), 1)
         if attach is not None:
             cands = [i for i in ids if m.atoms[i]['element'] == 'C']
             m.add_bond(attach, R.choice(cands), 1)
@@ -322,10 +332,10 @@ def atom_token(m, i, R, style):
     if e == 'H':
         return '[H]'        # an explicitly written hydrogen atom
     sym = e.lower() if a['aromatic'] else e
-    if a['charge'] == 0 and style.get('bracket', 0) <= R.random():
+    if a['charge'] == 0 and style.get('bracket', 0) <= R.random() and not a.get('force_bracket'):
         return sym
     h = m.hcount(i)
-    hs = '' if (h == 0 or (a['charge'] == 0 and style.get('omit_h', 0) > R.random())) else ('H' if h == 1 else 'H%d' % h)
+    hs = '' if (h == 0 or (a['charge'] == 0 and not a.get('force_bracket') and style.get('omit_h', 0) > R.random())) else ('H' if h == 1 else 'H%d' % h)
     c = a['charge']
     cs = '' if c == 0 else ('+' if c == 1 else '-' if c == -1 else '%+d' % c)
     return '[%s%s%s]' % (sym, hs, cs)
